@@ -75,7 +75,10 @@ func getCacheMaxAge(header http.Header) int {
 	// 如果有设置了 age 字段，则最大缓存时长减少
 	if age := header.Get(headerAge); age != "" {
 		v, _ := strconv.Atoi(age)
-		maxAge -= v
+		// age 为负数属于非法值，不能因此延长（或产生）缓存有效期
+		if v > 0 {
+			maxAge -= v
+		}
 	}
 
 	return maxAge
